@@ -2,7 +2,6 @@ package c12merge
 
 import (
 	"context"
-	"errors"
 	"fmt"
 	"sync"
 	"sync/atomic"
@@ -423,7 +422,7 @@ func runStreamMerge(p Plan) (vk.Outcome, error) {
 			} else {
 				isInputErr := false
 				for i := range E {
-					if p.Inputs[i].ErrAt >= 0 && errors.Is(final, E[i]) {
+					if p.Inputs[i].ErrAt >= 0 && final == E[i] {
 						isInputErr = true
 					}
 				}
@@ -828,7 +827,7 @@ func runErrStorm(p ErrStormPlan) (vk.Outcome, error) {
 			m.Close()
 			okErr := false
 			for _, E := range Es {
-				okErr = okErr || errors.Is(final, E)
+				okErr = okErr || final == E
 			}
 			if !okErr {
 				return vk.Violf("wrong-error", "round %d: %d input(s) failed while %d others were idle in a context-aware Next; the merged stream reported %v, which none of them returned", round, nf, p.Idle, final)
